@@ -190,10 +190,16 @@ class Spinner:
         raise NoResultError()
 
     def _got_failure(self, result):
+        if not self._spinning:
+            # The run is already over (timed out or interrupted): whatever
+            # arrives now is too late to be its result.
+            return result
         self._cancel_timeout()
         self._failure = result
 
     def _got_success(self, result):
+        if not self._spinning:
+            return result
         self._cancel_timeout()
         self._success = result
 
@@ -207,6 +213,9 @@ class Spinner:
         Spinner never calls this method.
         """
         self._reactor.crash()
+        # The run has been interrupted: nothing that happens while the
+        # reactor winds down may count as its result.
+        self._spinning = False
 
     def _stop_reactor(self, ignored=None):
         """Stop the reactor!"""
@@ -216,6 +225,8 @@ class Spinner:
             self._spinning = False
 
     def _timed_out(self, function, timeout):
+        if not self._spinning:
+            return
         e = TimeoutError(function, timeout)
         self._failure = Failure(e)
         self._stop_reactor()
